@@ -15,8 +15,20 @@ pub struct RowModel<T: Sc> {
     pub scale: Option<Vec<T>>,
     /// rows to overwrite with the given constant (model and derivative rows)
     pub overwrite: Vec<(usize, T)>,
+    /// single entries (row, column, value) of the basis matrix to overwrite (C08: one non-finite
+    /// element anywhere, the first and the last one included)
+    pub entries: Vec<(usize, usize, T)>,
 }
 impl<T: Sc> RowModel<T> {
+    fn fix_eval(&self, m: DMatrix<T>) -> DMatrix<T> {
+        let mut m = self.fix(m);
+        for (i, j, v) in self.entries.iter() {
+            if *i < m.nrows() && *j < m.ncols() {
+                m[(*i, *j)] = *v;
+            }
+        }
+        m
+    }
     fn fix(&self, mut m: DMatrix<T>) -> DMatrix<T> {
         for (i, v) in self.overwrite.iter() {
             for j in 0..m.ncols() {
@@ -52,7 +64,7 @@ impl<T: Sc> SeparableNonlinearModel for RowModel<T> {
         self.inner.params()
     }
     fn eval(&self) -> Result<OMatrix<T, Dyn, Dyn>, HErr> {
-        self.inner.eval().map(|m| self.fix(m))
+        self.inner.eval().map(|m| self.fix_eval(m))
     }
     fn eval_partial_deriv(&self, k: usize) -> Result<OMatrix<T, Dyn, Dyn>, HErr> {
         self.inner.eval_partial_deriv(k).map(|m| self.fix(m))
@@ -241,6 +253,7 @@ fn one_wtwin<T: Sc>(out: &mut Out, rng: &mut Rng, thorough: bool, i: usize) {
             inner: any_model(&c.recipe, &c.init, c.built),
             scale: Some(w.clone()),
             overwrite: vec![],
+            entries: vec![],
         }));
         let mut ys = c.y.clone();
         for j in 0..ys.ncols() {
@@ -265,6 +278,7 @@ fn one_wtwin<T: Sc>(out: &mut Out, rng: &mut Rng, thorough: bool, i: usize) {
             inner: any_model(&c.recipe, &c.init, c.built),
             scale: None,
             overwrite: zeros.iter().map(|r| (*r, T::of(3.25 + *r as f64))).collect(),
+            entries: vec![],
         }));
         let mut yz = c.y.clone();
         for r in zeros.iter() {
